@@ -297,6 +297,44 @@ def flows_only_to_label(M, fn, node, attr='order_id', depth=0):
     return False
 
 
+def _id_only_keys_own_table(fn, node):
+    """id(x) (possibly inside a tuple) is used as a key and nothing else: the argument of .add/.discard/.remove/.get/.pop/.setdefault on a field of self, the left side of
+    `in self.<field>`, or a subscript of a field of self.  (Keys of module-level tables outlive the objects: not accepted here.)"""
+    pm = parent_map(fn.node)
+    top = node
+    while isinstance(pm.get(top), ast.Tuple):
+        top = pm.get(top)
+    par = pm.get(top)
+
+    def self_field(x):
+        while isinstance(x, ast.Subscript):
+            x = x.value
+        return isinstance(x, ast.Attribute) and isinstance(x.value, ast.Name) and x.value.id == 'self'
+    if isinstance(par, ast.Call) and top in par.args and isinstance(par.func, ast.Attribute) and par.func.attr in ('add', 'discard', 'remove', 'get', 'pop', 'setdefault') \
+            and self_field(par.func.value):
+        return True
+    if isinstance(par, ast.Compare) and par.left is top and all(isinstance(o, (ast.In, ast.NotIn)) for o in par.ops) and all(self_field(c) for c in par.comparators):
+        return True
+    if isinstance(par, ast.Subscript) and par.slice is top and self_field(par.value):
+        return True
+    if isinstance(par, ast.Assign) and len(par.targets) == 1 and isinstance(par.targets[0], ast.Name):
+        # key = (id(ds), asset) ; ... key in self._t / self._t.add(key)
+        nm = par.targets[0].id
+        uses = [n for n in ast.walk(fn.node) if isinstance(n, ast.Name) and n.id == nm and isinstance(n.ctx, ast.Load)]
+        ok = bool(uses)
+        for u in uses:
+            pu = pm.get(u)
+            if isinstance(pu, ast.Call) and u in pu.args and isinstance(pu.func, ast.Attribute) and pu.func.attr in ('add', 'discard', 'remove', 'get', 'pop', 'setdefault') and self_field(pu.func.value):
+                continue
+            if isinstance(pu, ast.Compare) and pu.left is u and all(isinstance(o, (ast.In, ast.NotIn)) for o in pu.ops) and all(self_field(c) for c in pu.comparators):
+                continue
+            if isinstance(pu, ast.Subscript) and pu.slice is u and self_field(pu.value):
+                continue
+            ok = False
+        return ok
+    return False
+
+
 def randomness(ctx):
     M = ctx.M
     n = 0
@@ -309,6 +347,8 @@ def randomness(ctx):
                     tab = TABLED_RANDOM.get((fn.qn, name))
                     if not tab and name == 'uuid.uuid4' and flows_only_to_label(M, fn, node):
                         tab = 'random label: the value reaches only <order>.order_id (discharged by the order_id taint rule below)'
+                    if not tab and name == 'builtins.id' and _id_only_keys_own_table(fn, node):
+                        tab = 'identity of a live object used as (part of) a key of a table the object owner keeps on itself: looked up, never ordered, compared by size or shown'
                     ctx.require(bool(tab), 'C18.random', 'no untabled source of randomness, wall-clock time or object identity (%s in %s)' % (name, fn.qn), fn.site(node),
                                 '%s differs from run to run' % name, key='C18.random|%s|%s' % (fn.qn, name))
     # dynamic imports hide a source from the enumeration above
@@ -993,9 +1033,32 @@ def memoisation(ctx):
                         continue
                 if memos is None:
                     try:
-                        memos = memo_tables(ctx, m, summarise(ctx, m, policy=default_policy))
+                        mps0 = summarise(ctx, m, policy=default_policy)
+                        memos = memo_tables(ctx, m, mps0)
+                        from ..lib import slot_memos, set_memos
+                        slots_ = slot_memos(ctx, m, mps0)
+                        setm_ = set_memos(ctx, m, mps0)
                     except Undecided:
-                        memos = {}
+                        memos, slots_, setm_ = {}, [], []
+                slot = next((s_ for s_ in slots_ if any((l_[1] if l_[0] == 'sub' else l_)[2] == fld for l_ in s_.get('result_locs', []) ) or fld in s_['tag']), None)
+                if slot is not None:
+                    inst_ = 'stateless components keep no state between calls (%s)' % m.qn
+                    if slot['verdict'][0] == 'sound':
+                        ctx.holds('C18.memo', '%s: self.%s remembers the last question and its answer; the question is kept as a snapshot (%s)' % (m.qn, fld, fmt(slot['key'])[:60]), m.site(n))
+                    elif slot['verdict'][0] == 'unsound':
+                        ctx.violation('C18.memo', inst_, m.site(n), 'self.%s: %s' % (fld, slot['verdict'][1]), key='C18.memo|state|%s|%s' % (m.qn, fld))
+                    else:
+                        ctx.undecided('C18.memo', inst_, m.site(n), 'self.%s: %s' % (fld, slot['verdict'][1]))
+                    continue
+                if how.startswith('grown in place (.add)') and not any(f_ == fld for f_, *_ in setm_):
+                    # a set of remembered facts, every one of which was established without reading anything but the key it is filed under (see lib.set_memos)
+                    try:
+                        consulted_ = any(c_[0] == 'cmp' and c_[1] == 'in' and c_[3][0] == 'attr' and c_[3][2] == fld for p_ in mps0 for e_, l_, cs_ in __import__('qsverif.lib', fromlist=['nested_events']).nested_events(p_) for c_, _, _ in cs_)
+                    except Exception:
+                        consulted_ = False
+                    if consulted_:
+                        ctx.holds('C18.memo', '%s: self.%s remembers facts about its keys that do not depend on the query (nothing but the key is read where they are established)' % (m.qn, fld), m.site(n))
+                        continue
                 mt = memos.get(fld)
                 shared = any(fld in k.class_attrs for k in c.mro()) and not any(w.fn.name == '__init__' or _ctor_only(M, w.fn) for w in writers_of_attr(M, fld, owner=cname))
                 if mt is not None and mt[0] == 'sound' and not shared:
